@@ -154,8 +154,8 @@ TREES = {
 def _mk(cx, prefix, desc):
     if isinstance(desc, dict):
         return lib.mk_obs(cx, prefix, desc)
-    kind, name, dim, pos = desc
-    return lib.mk_covobs(cx, prefix, name, dim, pos)
+    kind, name, dim, pos = desc[:4]
+    return lib.mk_covobs(cx, prefix, name, dim, pos, mean=desc[4] if len(desc) > 4 else None)
 
 
 class _Node:
@@ -350,6 +350,7 @@ def _single(lst):
 
 COV1 = ('cov', 'cv', 1, 0)
 COV2 = ('cov', 'cw', 2, 1)
+COVI = ('cov', 'cv', 1, 0, 2)          # covariance input with an integer-typed central value (cov_Obs(2, ...)): numpy infers dtypes from first elements
 
 
 def jobs(tier, seed):
@@ -387,6 +388,8 @@ def jobs(tier, seed):
         (_single([1, 2, 3, 4, 5]), COV1, {'f|r1': [1, 2, 3, 4, 5, 6]}, True),          # Monte Carlo + covariance input
         (COV2, COV2, _single([1, 2, 3, 4, 5]), True),                                  # shared covariance input
         (COV2, COV1, COV2, True),
+        (COVI, _single([1, 2, 3, 4, 5]), COV1, True),                                  # integer-typed central value in the first operand
+        (_single([1, 2, 3, 4, 5]), COVI, _single([1, 2, 3, 4, 5]), True),
     ]
     tnames = sorted(TREES)
     for la, lb, lc, one in tsets:
@@ -401,7 +404,7 @@ def jobs(tier, seed):
         add('cobs', la=la, lb=lb, ops=['obs_mix', 'obs_complex', 'conj_neg'])
     # explicit derived_observable
     for la, lb, lc in [(_single([1, 2, 3, 4, 5]), _single([2, 3, 4, 5, 6, 8]), {'f|r1': [1, 2, 3, 4, 5]}),
-                       ({'e|r1': [1, 2, 3, 4, 5]}, e1, COV2)]:
+                       ({'e|r1': [1, 2, 3, 4, 5]}, e1, COV2), (COVI, _single([1, 2, 3, 4, 5]), COV2)]:
         for v in ('autograd', 'num_grad', 'man_grad', 'multi', 'ndarray'):
             add('derived', la=la, lb=lb, lc=lc, variant=v)
     # layout parameters as symbolic integers: every pair of ranges in a box (and with one hole)
